@@ -64,25 +64,37 @@ func (f *parserFlow) resolveCalls() {
 				return
 			}
 			if prm, ok := cc.Value.(*ssa.Parameter); ok {
-				idx := paramIndex(fn, prm)
-				var out []*ssa.Function
-				okAll := idx >= 0
-				calls := callsTo(f.m.fns, fn)
-				if len(calls) == 0 {
-					okAll = false
-				}
-				for _, site := range calls {
-					a := site.Common().Args[idx]
-					switch v := a.(type) {
-					case *ssa.MakeClosure:
-						out = append(out, unwrapThunk(v.Fn.(*ssa.Function)))
-					case *ssa.Function:
-						out = append(out, v)
-					default:
-						okAll = false
+				// the closures passed at every call site; a call site that hands on its own callback parameter
+				// (many -> repeatUntil) is followed to its callers
+				var resolve func(prm *ssa.Parameter, depth int) ([]*ssa.Function, bool)
+				resolve = func(prm *ssa.Parameter, depth int) ([]*ssa.Function, bool) {
+					pf := prm.Parent()
+					idx := paramIndex(pf, prm)
+					calls := callsTo(f.m.fns, pf)
+					if idx < 0 || len(calls) == 0 || depth > 3 {
+						return nil, false
 					}
+					var out []*ssa.Function
+					for _, site := range calls {
+						a := site.Common().Args[idx]
+						switch v := a.(type) {
+						case *ssa.MakeClosure:
+							out = append(out, unwrapThunk(v.Fn.(*ssa.Function)))
+						case *ssa.Function:
+							out = append(out, unwrapThunk(v))
+						case *ssa.Parameter:
+							more, ok := resolve(v, depth+1)
+							if !ok {
+								return nil, false
+							}
+							out = append(out, more...)
+						default:
+							return nil, false
+						}
+					}
+					return out, true
 				}
-				if okAll {
+				if out, okAll := resolve(prm, 0); okAll {
 					f.calleesOf[ci] = out
 					return
 				}
@@ -139,6 +151,28 @@ func funcChoice(v ssa.Value, depth int) ([]*ssa.Function, bool) {
 			cell = a
 		case *ssa.FreeVar:
 			cell = resolveFreeVar(a)
+		case *ssa.FieldAddr:
+			// a function kept in a struct field: whatever is stored into that field anywhere in the module
+			n, fld, _, _ := fieldOf(a)
+			if n == nil || curProgram == nil || !curProgram.inModulePkgPath(n) {
+				return nil, false
+			}
+			var out []*ssa.Function
+			sts := storesToField(curProgram.Funcs(), n, fld)
+			if len(sts) == 0 {
+				return nil, false
+			}
+			for _, st := range sts {
+				if isNilConst(st.store.Val) {
+					continue
+				}
+				fs, ok := funcChoice(st.store.Val, depth+1)
+				if !ok {
+					return nil, false
+				}
+				out = append(out, fs...)
+			}
+			return out, len(out) > 0
 		}
 		if cell == nil {
 			return nil, false
